@@ -357,8 +357,15 @@ class ValuePattern:
         self._uses: list[tuple[NodePattern, int]] = []
 
     def clone(self, node_map: dict[NodePattern, NodePattern]) -> ValuePattern:
-        del node_map
-        return ValuePattern(self._name, check=self._check)
+        # A value-pattern used more than once must stay ONE value-pattern in the copy
+        # (an unnamed one is bound by identity: all its uses must match the same value).
+        if self in node_map:
+            return node_map[self]  # type: ignore[index, return-value]
+        copied = ValuePattern(
+            self._name, check=self._check, can_match_none=self._can_match_none
+        )
+        node_map[self] = copied  # type: ignore[index, assignment]
+        return copied
 
     @property
     def name(self) -> str | None:
@@ -593,7 +600,13 @@ class Var(ValuePattern):
 
     def clone(self, node_map: dict[NodePattern, NodePattern]) -> Var:
         """Clones the pattern-variable, preserving its name and check method."""
-        return Var(self.name, check=self.check_method, can_match_none=self.can_match_none)
+        # A variable used more than once must stay ONE variable in the copy
+        # (an unnamed one is bound by identity: all its uses must match the same value).
+        if self in node_map:
+            return node_map[self]  # type: ignore[index, return-value]
+        copied = Var(self.name, check=self.check_method, can_match_none=self.can_match_none)
+        node_map[self] = copied  # type: ignore[index, assignment]
+        return copied
 
 
 class AnyValue(ValuePattern):
